@@ -158,6 +158,7 @@ def node_part(ctx, rng, cases, worst, thorough):
             s = b"".join(F.enc_frame(f) for f in per_conn[c])
             pend.append(F.cut(s, F.rand_cutset(rng, len(s))) if s else [])
         ops = []
+        closed = set()
         if kind == "witness":
             ops = [("open",), ("open",), ("data", 0, pend[0][0])] if len(pend[0]) == 1 else None
             if ops is None:
@@ -173,16 +174,23 @@ def node_part(ctx, rng, cases, worst, thorough):
                     continue
                 c = rng.choice(choices)
                 ops.append(("data", c, pend[c].pop(0)))
+                # a host that has sent everything may hang up while other connections are still busy
+                if not pend[c] and opened > 1 and rng.random() < 0.5 and c not in closed:
+                    ops.append(("close", c))
+                    closed.add(c)
         node = F.ServerNode()
         for o in ops:
             if o[0] == "open":
                 node.open()
+            elif o[0] == "close":
+                node.close(o[1])
+                ctx.count("node_close_events")
             else:
                 node.data(o[1], o[2])
         ctx.count("node_runs")
         ctx.count("node_runs_%d_connections" % k)
         ctx.case(("node", repr(ops)), nontrivial=k > 1)
-        d = {"part": "node", "ops": [list(o[:2]) + [o[2].hex()] if o[0] == "data" else ["open"] for o in ops],
+        d = {"part": "node", "ops": [list(o[:2]) + [o[2].hex()] if o[0] == "data" else list(o) for o in ops],
              "sent_per_connection": [show_frames(fs) for fs in per_conn],
              "writes": [[c, w.hex() if isinstance(w, bytes) else repr(w)] for c, w in node.writes]}
         cases.append((F.node_case(ops, node), d))
